@@ -378,6 +378,38 @@ async fn run_case(root: PathBuf, ops: Vec<String>) -> Vec<String> {
                 }
                 "ok".to_owned()
             }
+            "churn" => {
+                // n times (delete key, set key = i) sent back to back: consecutive actions for the writer to batch
+                let c: usize = t[1].parse().expect("c");
+                let n: usize = t[2].parse().expect("n");
+                let key = unhex(t[3]);
+                let mut last = None;
+                if let Some(conn) = conns.get_mut(&c) {
+                    let mut text = String::new();
+                    for i in 0..n {
+                        conn.tid += 1;
+                        text.push_str(&json!({"delete": {"transactionId": conn.tid, "key": key}}).to_string());
+                        text.push('\n');
+                        conn.tid += 1;
+                        text.push_str(&json!({"set": {"transactionId": conn.tid, "key": key, "value": i}}).to_string());
+                        text.push('\n');
+                    }
+                    conn.wr.write_all(text.as_bytes()).await.ok();
+                    conn.wr.flush().await.ok();
+                    // wait for the answer to the last request
+                    let want = json!(conn.tid);
+                    let deadline = tokio::time::Instant::now() + Duration::from_secs(5);
+                    while let Ok(Ok(Some(l))) = tokio::time::timeout_at(deadline, conn.rd.next_line()).await {
+                        if let Ok(v) = serde_json::from_str::<Value>(&l) {
+                            if v.as_object().and_then(|o| o.values().next()).map(|b| b["transactionId"] == want).unwrap_or(false) {
+                                last = Some(v);
+                                break;
+                            }
+                        }
+                    }
+                }
+                answer_str(last)
+            }
             "join" => {
                 let mut res = "unreachable".to_owned();
                 for _ in 0..4 {
